@@ -174,3 +174,117 @@ fn c01_framing_0_0() { framing(0, 0, true) }
 #[kani::proof]
 #[kani::unwind(5)]
 fn c01_framing_3_none() { framing(3, 0, false) }
+
+// ---------------------------------------------------------------------------
+// C01: the payload the real `Message::generate` hands to the cipher
+// ---------------------------------------------------------------------------
+// `derive_random_values`, `derive_key`, `share` (decided elsewhere: C04, C16) return arbitrary
+// values; `Ciphertext::new` (decided by c03_masking / c01_cipher round trip) records the
+// plaintext it is given.  What remains is generate's own framing code.
+pub static mut GEN_PT: [u8; 24] = [0u8; 24];
+pub static mut GEN_PT_LEN: usize = 0x5EED_0301;
+pub static mut GEN_KEY: [u8; 16] = [0u8; 16];
+pub static mut GEN_KEY_USED: [u8; 16] = [0u8; 16];
+
+pub fn mg_derive_random_values_any(_s: &sta_rs::MessageGenerator, _r: &[u8]) -> Vec<[u8; 32]> {
+    let a: [u8; 32] = kani::any();
+    let b: [u8; 32] = kani::any();
+    let c: [u8; 32] = kani::any();
+    vec![a, b, c]
+}
+pub fn mg_derive_key_any(_s: &sta_rs::MessageGenerator, _r1: &[u8]) -> [u8; 16] {
+    let k: [u8; 16] = kani::any();
+    unsafe { GEN_KEY = k; }
+    k
+}
+pub fn mg_share_fixed(
+    _s: &sta_rs::MessageGenerator,
+    _r1: &[u8],
+    _r2: &[u8],
+) -> Result<sta_rs::Share, Box<dyn std::error::Error>> {
+    let mut xb = [0u8; 24];
+    xb[0] = 1;
+    let s = star_sharks::Share::try_from(&xb[..]).unwrap();
+    let a = adss::Share::verif_from_parts(2, s, Vec::new(), Vec::new(), [0u8; 64]);
+    // sta_rs::Share is a private newtype around adss::Share; its content is irrelevant here
+    Ok(unsafe { core::mem::transmute::<adss::Share, sta_rs::Share>(a) })
+}
+pub fn ciphertext_new_record(key: &[u8], data: &[u8], _label: &str) -> sta_rs::Ciphertext {
+    unsafe {
+        GEN_PT_LEN = data.len();
+        let mut i = 0;
+        while i < 24 {
+            if i < data.len() {
+                GEN_PT[i] = data[i];
+            }
+            i += 1;
+        }
+        let mut i = 0;
+        while i < 16 {
+            if i < key.len() {
+                GEN_KEY_USED[i] = key[i];
+            }
+            i += 1;
+        }
+    }
+    sta_rs::Ciphertext::from_bytes(&[0u8; 1])
+}
+
+fn generate_framing(ml: usize, al: usize, has_aux: bool) {
+    let m: [u8; 4] = kani::any();
+    let a: [u8; 4] = kani::any();
+    let e: [u8; 2] = kani::any();
+    let t: u32 = kani::any();
+    let rnd: [u8; 32] = kani::any();
+    let mg = sta_rs::MessageGenerator::new(sta_rs::SingleMeasurement::new(&m[..ml]), t, &e);
+    let aux = if has_aux { Some(sta_rs::AssociatedData::new(&a[..al])) } else { None };
+    let msg = sta_rs::Message::generate(&mg, &rnd, aux);
+    assert!(msg.is_ok());
+    let want_len = 4 + ml + if has_aux { 4 + al } else { 0 };
+    let (pt, n) = unsafe { (GEN_PT, GEN_PT_LEN) };
+    assert!(n == want_len, "payload is len|measurement followed by len|aux iff associated data was supplied (also when it is empty)");
+    assert!(pt[0] == ml as u8 && pt[1] == 0 && pt[2] == 0 && pt[3] == 0);
+    let mut i = 0;
+    while i < ml {
+        assert!(pt[4 + i] == m[i], "measurement bytes in the payload");
+        i += 1;
+    }
+    if has_aux {
+        let o = 4 + ml;
+        assert!(pt[o] == al as u8 && pt[o + 1] == 0 && pt[o + 2] == 0 && pt[o + 3] == 0);
+        let mut i = 0;
+        while i < al {
+            assert!(pt[o + 4 + i] == a[i], "associated data bytes in the payload");
+            i += 1;
+        }
+    }
+    let (k1, k2) = unsafe { (GEN_KEY, GEN_KEY_USED) };
+    let mut i = 0;
+    while i < 16 {
+        assert!(k1[i] == k2[i], "the payload is encrypted under the derived key");
+        i += 1;
+    }
+    kani::cover!(true, "reached");
+    core::mem::forget(msg);
+    core::mem::forget(mg);
+}
+macro_rules! gen_stubs {
+    ($(#[$m:meta])* fn $name:ident() $body:block) => {
+        #[kani::proof]
+        #[kani::stub(sta_rs::MessageGenerator::derive_random_values, mg_derive_random_values_any)]
+        #[kani::stub(sta_rs::MessageGenerator::derive_key, mg_derive_key_any)]
+        #[kani::stub(sta_rs::MessageGenerator::share, mg_share_fixed)]
+        #[kani::stub(sta_rs::Ciphertext::new, ciphertext_new_record)]
+        #[kani::stub(zeroize::optimization_barrier, barrier_noop)]
+        #[kani::stub(<sta_rs::Share as core::ops::Drop>::drop, drop_noop_star_share)]
+        #[kani::stub(<adss::AccessStructure as core::ops::Drop>::drop, drop_noop_access)]
+        #[kani::stub(<sta_rs::MessageGenerator as core::ops::Drop>::drop, drop_noop_mg)]
+        #[kani::stub(<sta_rs::SingleMeasurement as core::ops::Drop>::drop, drop_noop_measurement)]
+        $(#[$m])*
+        fn $name() $body
+    };
+}
+gen_stubs! { #[kani::unwind(26)] fn c01_generate_3_2() { generate_framing(3, 2, true) } }
+gen_stubs! { #[kani::unwind(26)] fn c01_generate_3_empty() { generate_framing(3, 0, true) } }
+gen_stubs! { #[kani::unwind(26)] fn c01_generate_3_none() { generate_framing(3, 0, false) } }
+gen_stubs! { #[kani::unwind(26)] fn c01_generate_0_none() { generate_framing(0, 0, false) } }
